@@ -34,6 +34,10 @@ def run(ctx):
                                  'enlarge_per_dim', 'n_points_min', 'split_threshold',
                                  'n_networks', 'n_batch', 'vectorized', 'pass_dict',
                                  'neural_network_{}'})
+    # ... in shell order: rows of shell i are read back from the keys formatted with i
+    from ..persist import rule_P9, rule_P12
+    rule_P9(ctx, prog.func('Sampler.__init__'), 'self')
+    rule_P12(ctx, prog.func('Sampler.__init__'), 'self')
     ctx.floor('L1', 8, 'member lockstep verdicts')
     ctx.floor('L2', 3, 'move obligations')
     ctx.floor('L3', 4, 'row extensions')
